@@ -3,6 +3,7 @@
   side built from the children's names evaluates to the node's value (core Lean only).
 -/
 import PtProofs.PyGenHloLemmas
+import PtProofs.PyGenIndexLemmas
 namespace Pt
 namespace Py
 
@@ -125,7 +126,8 @@ theorem il_sound (hw : WFG g) (hc : CleanEnv env) (hrank : RankOK g inp) {i : Na
 
 /-- one emitted statement: its right-hand side, over the names of the children, evaluates to the
     node's value -/
-theorem stmt_sound (hw : WFG g) (hc : CleanEnv env) (hrank : RankOK g inp) {i : Nat}
+theorem stmt_sound (hw : WFG g) (hc : CleanEnv env) (hrank : RankOK g inp) (hshape : ShapeOK g inp)
+    {i : Nat}
     {pre : Bool} {kids : List Nat} {mk : List String → PyExpr}
     (hp : plan g i = .ok (.stmt pre kids mk)) (hs : suppNode g i = true)
     {names : List String} {as : List (Arr Val)} (hb : BoundTo env names as)
@@ -138,8 +140,30 @@ theorem stmt_sound (hw : WFG g) (hc : CleanEnv env) (hrank : RankOK g inp) {i : 
   | sizeParam name => simp [plan, hn] at hp
   | refused k => simp [plan, hn] at hp
   | other k => simp [plan, hn] at hp
-  | alias c => simp [plan, hn] at hp
-  | index c ix => simp [suppNode, hn] at hs
+  | «alias» c => simp [plan, hn] at hp
+  | index c ix =>
+    simp only [plan, hn] at hp
+    cases hcs : staticShape (g.get c).shape with
+    | none => simp [hcs] at hp
+    | some cshape =>
+      simp only [hcs] at hp
+      simp only [suppNode, hn, hcs, Bool.and_eq_true, decide_eq_true_eq] at hs
+      split at hp
+      · cases hp
+      · simp only [Gen.ok.injEq, Plan.stmt.injEq] at hp
+        obtain ⟨_, rfl, rfl⟩ := hp
+        obtain ⟨hbasic, _⟩ := basicNorm_basic ix cshape hs.2.1
+        obtain ⟨_, _, _, hk0, _⟩ := idx_eval env (ix.take (emittedIdxCount ix cshape)) cshape
+          (all_take _ _ _ hbasic)
+        rw [hk0] at hd
+        obtain ⟨a, n, rfl, rfl, hda, hna⟩ := kids1 hb hd
+        have hsh := hshape c a cshape hda hcs
+        subst hsh
+        obtain ⟨gs, hg⟩ := basicNorm_toGs ix a.shape hs.2.1
+        simp only [List.headD_cons, List.tail_cons]
+        rw [subscript_sound hna ix gs hs.2.1 hg,
+          denV_arr (by rw [hn]; intro items h; cases h), den_step hw]
+        simp [denoteStep, hn, hg, hda]
   | einsum d cs' => simp [suppNode, hn] at hs
   | roll c shift axis =>
     simp only [plan, hn, Gen.ok.injEq, Plan.stmt.injEq] at hp
@@ -199,7 +223,7 @@ theorem stmt_defined (hdef : Defined g inp) {i : Nat} {pre : Bool} {kids : List 
 theorem pass_sound (hw : WFG g) {i c : Nat} (hp : plan g i = .ok (.pass c))
     (hs : suppNode g i = true) : denV g inp i = denV g inp c ∧ c ∈ kidsOf g i := by
   cases hn : (g.get i).node with
-  | alias c' =>
+  | «alias» c' =>
     simp only [plan, hn, Gen.ok.injEq, Plan.pass.injEq] at hp
     subst hp
     simp only [suppNode, hn, kidsOf, List.all_cons, List.all_nil, Bool.and_true] at hs
@@ -207,7 +231,16 @@ theorem pass_sound (hw : WFG g) {i c : Nat} (hp : plan g i = .ok (.pass c))
     rw [denV_arr (by rw [hn]; intro items h; cases h), den_step hw]
     simp only [denoteStep, hn]
     rw [denV_arr (by intro items h; simp [notDict, h] at hs)]
-  | index c' ix => simp [suppNode, hn] at hs
+  | index c' ix =>
+    simp only [plan, hn] at hp
+    cases hcs : staticShape (g.get c').shape with
+    | none => simp [hcs] at hp
+    | some cshape =>
+      simp only [hcs] at hp
+      simp only [suppNode, hn, hcs, Bool.and_eq_true, decide_eq_true_eq] at hs
+      split at hp
+      · omega
+      · cases hp
   | indexLambda dt e binds lits =>
     simp only [plan, hn] at hp
     cases hsh : staticShape (g.get i).shape with
@@ -399,8 +432,23 @@ theorem stmt_kids {i : Nat} {pre : Bool} {kids : List Nat} {mk : List String →
   | sizeParam name => simp [plan, hn] at hp
   | refused k => simp [plan, hn] at hp
   | other k => simp [plan, hn] at hp
-  | alias c => simp [plan, hn] at hp
-  | index c ix => simp [suppNode, hn] at hs
+  | «alias» c => simp [plan, hn] at hp
+  | index c ix =>
+    simp only [plan, hn] at hp
+    cases hcs : staticShape (g.get c).shape with
+    | none => simp [hcs] at hp
+    | some cshape =>
+      simp only [hcs] at hp
+      simp only [suppNode, hn, hcs, Bool.and_eq_true, decide_eq_true_eq] at hs
+      split at hp
+      · cases hp
+      · simp only [Gen.ok.injEq, Plan.stmt.injEq] at hp
+        obtain ⟨_, rfl, _⟩ := hp
+        obtain ⟨hbasic, _⟩ := basicNorm_basic ix cshape hs.2.1
+        obtain ⟨_, _, _, hk0, _⟩ := idx_eval [] (ix.take (emittedIdxCount ix cshape)) cshape
+          (all_take _ _ _ hbasic)
+        rw [hk0]
+        simp [kidsOf, hn]
   | einsum d cs' => simp [suppNode, hn] at hs
   | roll c shift axis =>
     simp only [plan, hn, Gen.ok.injEq, Plan.stmt.injEq] at hp
